@@ -93,22 +93,28 @@ void MEDDLY::binary_operation::compute(const dd_edge &ar1,
     }
 #ifdef ALLOW_OLD_BINARY_0_17_6
     if (new_style) {
+        // res may be one of the operands: do not write its edge value
+        // while the operands' edge values are still being read.
         node_handle resp;
+        edge_value resv;
         compute(resF->getMaxLevelIndex(), ~0,
                 ar1.getEdgeValue(), ar1.getNode(),
                 ar2.getEdgeValue(), ar2.getNode(),
-                res.setEdgeValue(), resp);
-        res.set(resp);
+                resv, resp);
+        res.set(resv, resp);
     } else {
         computeDDEdge(ar1, ar2, res, true);
    }
 #else
+    // res may be one of the operands: do not write its edge value
+    // while the operands' edge values are still being read.
     node_handle resp;
+    edge_value resv;
     compute(resF->getMaxLevelIndex(), ~0,
             ar1.getEdgeValue(), ar1.getNode(),
             ar2.getEdgeValue(), ar2.getNode(),
-            res.setEdgeValue(), resp);
-    res.set(resp);
+            resv, resp);
+    res.set(resv, resp);
 #endif
 #ifdef DEVELOPMENT_CODE
     resF->validateIncounts(true, __FILE__, __LINE__, getName());
